@@ -1157,11 +1157,12 @@ fn find_again(
     seed: u64,
     clock: &Rc<VClock>,
     hint: &FaultPlan,
+    noise: Option<u64>,
 ) -> Option<(Printed, Finding)> {
     let printed = simlang::print(
         p,
         &PrintOpts {
-            noise_seed: None,
+            noise_seed: noise,
             main_is_module_body: false,
                 define_globals: true,
                 tests: vec![],
@@ -1203,12 +1204,21 @@ pub fn shrink(
     finding: &Finding,
     seed: u64,
     clock: &Rc<VClock>,
+    original_noise: Option<u64>,
 ) -> (Program, Printed, Finding, usize) {
     let class = finding.violation.class.clone();
     let mut best = p.clone();
-    let Some((mut best_printed, mut best_finding)) = find_again(&best, &class, seed, clock, &finding.plan) else {
-        // cannot even reproduce without layout noise: keep the original
-        let printed = simlang::print(p, &PrintOpts { noise_seed: None, main_is_module_body: false, define_globals: true, tests: vec![], main_call: None });
+    // without layout noise first (simpler replay files); a violation that depends on the
+    // layout (comments, line ends) is minimised under the layout it was found with
+    let mut noise = None;
+    let mut first = find_again(&best, &class, seed, clock, &finding.plan, None);
+    if first.is_none() && original_noise.is_some() {
+        noise = original_noise;
+        first = find_again(&best, &class, seed, clock, &finding.plan, noise);
+    }
+    let Some((mut best_printed, mut best_finding)) = first else {
+        // cannot reproduce after re-printing: keep the original as it was printed
+        let printed = simlang::print(p, &PrintOpts { noise_seed: original_noise, main_is_module_body: false, define_globals: true, tests: vec![], main_call: None });
         return (
             p.clone(),
             printed,
@@ -1232,7 +1242,7 @@ pub fn shrink(
             if steps > 1500 {
                 break;
             }
-            if let Some((pr, f)) = find_again(&c, &class, seed, clock, &best_finding.plan) {
+            if let Some((pr, f)) = find_again(&c, &class, seed, clock, &best_finding.plan, noise) {
                 best = c;
                 best_printed = pr;
                 best_finding = f;
@@ -1435,7 +1445,7 @@ impl Worker for UnwindWorker {
                     continue;
                 }
             }
-            let (mp, mprinted, mf, steps) = shrink(&p, &f, run_seed, &self.clock);
+            let (mp, mprinted, mf, steps) = shrink(&p, &f, run_seed, &self.clock, noise);
             // exact replay, twice
             let (_, o1, v1) = eval_one(&mp, &mprinted, &mf.plan, &self.clock, true);
             let (_, o2, _) = eval_one(&mp, &mprinted, &mf.plan, &self.clock, true);
@@ -1604,6 +1614,7 @@ pub fn show(run_seed: u64, fault: Option<&str>) {
     for (i, l) in printed.source.lines().enumerate() {
         println!("{:4} {}", i + 1, l);
     }
+    println!("line ends: {}", if printed.source.contains('\r') { "CR LF" } else { "LF" });
     let clock = host::install_clock();
     let (pred, obs, verdict) = eval_one(&p, &printed, &plan, &clock, true);
     if std::env::var("SHOW_AST").is_ok() {
